@@ -33,6 +33,8 @@ func main() {
 	sweep := flag.String("sweep", "", "extra whole-package pass: determinism")
 	allow := flag.String("allow", "", "allow-list file for the sweep")
 	preinstFile := flag.String("preinst", "", "debug: print the pre-instantiated form of an SMT script and exit")
+	runReplay := flag.String("run-replay", "", "run a replay file (Go test: executed against the repository; text: printed) and exit 1 if it shows a violation")
+	boundedFiles := flag.String("bounded", "", "comma separated bounded-check test files (package ecs) run against the repository; labelled bounded, never counted as proved")
 	flag.Parse()
 	if *preinstFile != "" {
 		data, err := os.ReadFile(*preinstFile)
@@ -49,6 +51,26 @@ func main() {
 		return
 	}
 	origPath = os.Getenv("PATH")
+	if *runReplay != "" {
+		if strings.HasSuffix(*runReplay, ".go") {
+			failed, out := runReplayFile(&Loaded{Repo: *repo}, *runReplay)
+			fmt.Print(out)
+			if failed {
+				fmt.Println("replay: the test fails on the real code (violation reproduced)")
+				os.Exit(1)
+			}
+			fmt.Println("replay: the test passes on the real code")
+			os.Exit(0)
+		}
+		data, err := os.ReadFile(*runReplay)
+		if err != nil {
+			fmt.Println(err)
+			os.Exit(2)
+		}
+		fmt.Print(string(data))
+		fmt.Println("replay: record of a failed obligation (no executable input); re-run the property's check to re-evaluate it")
+		os.Exit(1)
+	}
 	os.Setenv("PATH", "/opt/veriftools/go1.26.8/bin:"+os.Getenv("PATH"))
 	os.Setenv("GOTOOLCHAIN", "local")
 	os.Setenv("GOFLAGS", "-mod=mod")
@@ -157,7 +179,7 @@ func main() {
 	rep := &Report{L: L, Results: results, Verdicts: verdicts, Prop: *prop, Tier: *tier, Seed: seed, GenS: tgen.Seconds(), T0: t0,
 		Evidence: *evidence, ReplayDir: *replayDir, KnownFile: *known, Known: knownList, LockFile: *lock, UpdateLock: *updateLock, Verbose: *verbose,
 		TimeoutMs: tmo, Tags: *tags, FuncFilter: *fnre, VerifDir: *verifDir, Level: *level,
-		CheckerCmd: strings.Join(os.Args, " "), Sweep: *sweep, AllowFile: *allow}
+		CheckerCmd: strings.Join(os.Args, " "), Sweep: *sweep, AllowFile: *allow, BoundedFiles: *boundedFiles}
 	os.Exit(rep.Finish())
 }
 
@@ -194,6 +216,7 @@ type Report struct {
 	Level       string
 	CheckerCmd  string
 	Bounded     any
+	BoundedFiles string
 	Explanation string
 	Sweep       string
 	AllowFile   string
